@@ -33,7 +33,8 @@ JSON_TYPES = {
     'generic': [('list', I), ('set', I), ('tuple', [I, S]), ('vtuple', I), ('dict', S, I), ('dict', I, ('list', I)),
                 ('list', ('list', I)), ('list', ('opt', I)), ('list', ('rule', I, {'ge': 0}))],
     'logical': [('opt', I), ('union', I, S), ('union', I, ('list', I)), ('xor', ('rule', I, {'gt': 0}), ('rule', I, {'lt': 0})),
-                ('union', ('dc', 'TInner'), I)],
+                ('union', ('dc', 'TInner'), I), ('opt', ('any',)), ('union', I, ('any',)), ('list', ('union', ('none',), ('any',))),
+                ('dict', S, ('opt', ('any',)))],
     'dataclass': [('dc', 'TInner'), ('dc', 'TOuter'), ('list', ('dc', 'TInner')), ('dict', S, ('dc', 'TInner'))],
 }
 
@@ -64,6 +65,9 @@ def _outputs(V, group):
     try:
         j = encode(y)
     except Exception as e:  # noqa
+        if 'any' in repr(d):
+            V.cover('reject')       # an Any-typed member holds a value outside the JSON-faithful domain
+            return
         V.fail('schema:output-not-encodable', '%s: %r -> %r cannot be JSON encoded: %r' % (td.show(d), x, y, e))
     ok = minijs.valid(schema, j)
     det = lambda: '%s: input %r -> %r -> JSON %r does not validate against the output schema %r' % (td.show(d), x, y, j, schema)
